@@ -106,6 +106,10 @@ def binop(I, st, op, a, b, fr, k):
             return seq_concat(I, st, a, b, fr, k)
     if isinstance(op, ast.BitOr) and isinstance(a, LSet) and isinstance(b, LSet):
         return k(st, LSet(a.items | b.items, a.frozen))
+    if isinstance(op, ast.Mod) and isinstance(a, Sym) and isinstance(concrete_key(I, st, a), bytes) and isinstance(b, Tup):
+        r_ = _bytes_percent(I, st, concrete_key(I, st, a), b.items)
+        if r_ is not None:
+            return k(st, r_)
     if isinstance(op, ast.Mod) and isinstance(a, Sym):
         # "fmt" % args : opaque string (content irrelevant to every contract); assumed total
         ta = a.t
@@ -294,7 +298,10 @@ def contains(I, st, container, item, fr, k):
             return USER_CONTAINS[container.hint](I, st, container, it, fr, k)
         isset = I.w.isinstance_term(t, ["builtins.set", "builtins.frozenset", "builtins.dict"])
         def kset(s2):
-            return k(s2, z3.Select(s2.read(HAS, get_loc(t)), it.t))
+            m_ = z3.Select(s2.read(HAS, get_loc(t)), it.t)
+            if I.images and not fr.spec:
+                image_witness(I, s2, t, it.t, m_)
+            return k(s2, m_)
         def other(s2):
             isstr = z3.And(is_str(t), is_str(it.t))
             def kstr(s3):
@@ -398,6 +405,9 @@ def getattr_sym(I, st, v, name, fr, k):
                 return ok_(st)
     if hint:
         r = I.w.find_attr(hint, name)
+        if r is not None and (r[0], name) in I.reg.plain_fields:
+            note(I, f"{r[0]}.{name}: property modelled as a plain instance field (sidecar plain_field)")
+            r = None
         if r is not None:
             owner, ent = r
             if ent["kind"] == "property":
@@ -522,6 +532,14 @@ def getitem(I, st, c, key, fr, k):
         if c.hint and c.hint in USER_GETITEM:
             return USER_GETITEM[c.hint](I, st, c, key, fr, k)
         kt = as_sym(I, st, key).t
+        if fr.spec:
+            # specs have total (logical) semantics: an element of a sequence / mapping, an unspecified value otherwise
+            loc = get_loc(t)
+            n = st.read(LEN, loc); i = as_int(kt); idx = z3.If(i < 0, i + n, i)
+            sval = z3.Select(st.read(ELS, loc), idx)
+            mval = z3.Select(st.read(MAP, loc), kt)
+            isd = I.w.isinstance_term(t, ["builtins.dict"])
+            return k(st, Sym(z3.If(isd, mval, sval), field_hint(I, c.hint, "$item")))
         def kseq(s2):
             loc = get_loc(t)
             n = s2.read(LEN, loc)
@@ -965,6 +983,49 @@ def sf_hasattr(I, st, e, fr, k):
 
 HASATTR = {"errno": lambda I, st, x: I.w.isinstance_term(x.t, ["builtins.OSError"])}
 
+fmt_conv = {}
+
+
+def _bytes_percent(I, st, fmt, items):
+    """b"...%x...%b..." % (a, b): literal text exact; %b of a bytes operand is the operand; every other conversion is an
+    uninterpreted function of (conversion, operand) - deterministic, content unknown.  Assumed total (operands of the right kind)."""
+    import re as _re
+    parts = _re.split(rb"(%[a-zA-Z%])", fmt)
+    out = []; i = 0
+    for p_ in parts:
+        if len(p_) == 2 and p_[:1] == b"%":
+            if p_ == b"%%":
+                out.append(z3.StringVal("%")); continue
+            if i >= len(items):
+                return None
+            t = as_sym(I, st, items[i]).t; i += 1
+            cv = p_[1:].decode()
+            f_ = fmt_conv.setdefault(cv, z3.Function("bfmt_" + cv, V, z3.StringSort()))
+            out.append(z3.If(is_byt(t), get_y(t), f_(t)) if cv in ("b", "s") else f_(t))
+        elif p_:
+            out.append(z3.StringVal(p_.decode("latin-1")))
+    if i != len(items):
+        return None
+    note(I, "bytes %-formatting with a literal format: literal text and %b of bytes exact, other conversions uninterpreted functions of the operand")
+    return Sym(mk_byt(z3.Concat(*out) if len(out) > 1 else out[0]))
+
+
+def sf_has_lower_key(I, st, e, fr, k):
+    """has_lower_key(m, 'name'): mapping m (or None) has a str key whose lower-cased form is the given string (spec only)"""
+    def got(s2, vals):
+        m, nm = vals
+        nt = as_sym(I, s2, nm).t
+        if isinstance(m, LDict):
+            keys = list(s2.lheap[m.id].keys())
+            return k(s2, Sym(mk_bool(z3.Or([nt == pystr(x.lower()) for x in keys if isinstance(x, str)] or [z3.BoolVal(False)]))))
+        t = as_sym(I, s2, m).t
+        kq = z3.Const(I.w.fresh("kq"), V)
+        has = s2.read(HAS, get_loc(t))
+        ex = z3.Exists([kq], z3.And(z3.Select(has, kq), is_str(kq), mk_str(str_lower(get_s(kq))) == nt))
+        return k(s2, Sym(mk_bool(z3.And(is_ref(t), ex))))
+    return I.ev_list(st, e.args, fr, got)
+
+
 def sf_uf(I, st, e, fr, k):
     """uf('name', args...): an uninterpreted V-valued function of its arguments (spec only)."""
     name = e.args[0].value
@@ -998,7 +1059,7 @@ def sf_matches(I, st, e, fr, k):
     return I.ev(st, e.args[1], fr, got)
 
 
-SPECIAL_FORMS = {"matches": sf_matches, "K": sf_K, "uf": sf_uf, "old": sf_old, "fresh": sf_fresh, "implies": sf_implies, "iff": sf_iff, "isinstance": sf_isinstance,
+SPECIAL_FORMS = {"has_lower_key": sf_has_lower_key, "matches": sf_matches, "K": sf_K, "uf": sf_uf, "old": sf_old, "fresh": sf_fresh, "implies": sf_implies, "iff": sf_iff, "isinstance": sf_isinstance,
                  "super": sf_super, "forall": sf_forall, "exists": sf_forall, "hasattr": sf_hasattr}
 SPECIAL_ALWAYS = {"isinstance", "super", "hasattr"}
 
@@ -1044,6 +1105,9 @@ def b_len(I, st, args, kwargs, fr, k):
         t = x.t
         if x.hint in USER_LEN:
             return k(st, Sym(mk_int(USER_LEN[x.hint](I, st, get_loc(t)))))
+        if fr.spec:
+            # specs: total - the length of a string / bytes / container, an unspecified number otherwise
+            return k(st, Sym(mk_int(z3.If(is_str(t), z3.Length(get_s(t)), z3.If(is_byt(t), z3.Length(get_y(t)), st.read(LEN, get_loc(t)))))))
         def kstr(s2): return k(s2, Sym(mk_int(z3.Length(get_s(t)))))
         def kbyt(s2): return k(s2, Sym(mk_int(z3.Length(get_y(t)))))
         def kref(s2):
@@ -1181,6 +1245,12 @@ def USER_SET_FROM(I, st, v, frozen, fr, k):
             n = st.read(LEN, loc)
             st.fact(n >= 0)
             return k(st, Sym(res, hint="builtins.frozenset" if frozen else "builtins.set"))
+    if isinstance(v, GenOver) and isinstance(v.src, Sym) and isinstance(v.node.generators[0].target, ast.Name) and not v.node.generators[0].ifs \
+            and getattr(I.cur, "str_key_mappings", None) and isinstance(v.node.generators[0].iter, ast.Name) \
+            and v.node.generators[0].iter.id in I.cur.str_key_mappings:
+        img = _image_set(I, st, v, frozen, fr)
+        if img is not None:
+            return k(st, img)
     if isinstance(v, GenOver) or isinstance(v, Sym):
         # over-approximation: a fresh set object with unconstrained content (sound; listed)
         note(I, "set()/frozenset() built from a collection of unknown size: content unconstrained (over-approximation)")
@@ -1189,6 +1259,56 @@ def USER_SET_FROM(I, st, v, frozen, fr, k):
         st.fact(n >= 0)
         return k(st, Sym(mk_ref(loc), hint="builtins.frozenset" if frozen else "builtins.set"))
     raise Unsupported("set()/frozenset() of symbolic items")
+
+
+def _image_set(I, st, v, frozen, fr):
+    """frozenset(f(k) for k in m) over a mapping m with str keys (declared): the image of m's key set under f.
+    f is obtained by evaluating the element expression once on an arbitrary key (it must give one value, no effects);
+    forward: every key's image is a member (quantified, triggered by membership of the key); backward: each later
+    membership test that succeeds has a witness key (skolemised in `contains`).  The comprehension completed, so f raised on no key."""
+    e_ = v.node; g_ = e_.generators[0]
+    src_has = st.read(HAS, get_loc(v.src.t))
+    k0 = z3.Const(I.w.fresh("key"), V)
+    s_ = st.fork()
+    s_.env = dict(st.env); s_.env[g_.target.id] = Sym(k0)
+    s_.pc += [z3.Select(src_has, k0), is_str(k0)]
+    n_pc = len(s_.pc); ver = s_.version
+    try:
+        outs = I.ev(s_, e_.elt, fr, _val(None))
+    except Unsupported:
+        return None
+    normal = [o for o in outs if o.kind == "val"]
+    if len(normal) != 1 or normal[0].st.version != ver:
+        return None
+    o = normal[0]
+    extra = [c_ for c_ in o.st.pc[n_pc:] if id(c_) not in o.st.facts]
+    tv = as_sym(I, o.st, o.val).t
+    facts_ = [c_ for c_ in o.st.pc[n_pc:] if id(c_) in o.st.facts]
+    note(I, "frozenset(f(k) for k in mapping-with-str-keys): the image of the key set under f (forward by a quantified fact, backward by a witness per successful membership test); f raised on no key because the comprehension completed")
+    loc = I.alloc(st, "builtins.frozenset" if frozen else "builtins.set")
+    arr = z3.Const(I.w.fresh("img_has"), z3.ArraySort(V, z3.BoolSort()))
+    st.write(HAS, loc, arr)
+    n = st.read(LEN, loc)
+    st.fact(n >= 0)
+    kq = z3.Const(I.w.fresh("kq"), V)
+    body = z3.Implies(z3.And(z3.Select(src_has, kq), is_str(kq)), z3.And([z3.substitute(c_, (k0, kq)) for c_ in facts_ + extra] + [z3.Select(arr, z3.substitute(tv, (k0, kq)))]))
+    qf = z3.ForAll([kq], body, patterns=[z3.Select(src_has, kq)])
+    from . import engine as _E
+    _E._HARD[qf.get_id()] = True; _E._ALIVE.append(qf)        # kept out of feasibility queries (fewer hypotheses there: sound), present in every obligation
+    st.fact(qf)
+    I.images[str(loc)] = (src_has, tv, k0, facts_ + extra)
+    return Sym(mk_ref(loc), hint="builtins.frozenset" if frozen else "builtins.set")
+
+
+def image_witness(I, st, t, item_t, member):
+    """member (= item in S) for an image set S: a witness key exists"""
+    ent = I.images.get(str(z3.simplify(get_loc(t))))
+    if ent is None:
+        return
+    src_has, tv, k0, side = ent
+    w = z3.Const(I.w.fresh("wit"), V)
+    sub = lambda c_: z3.substitute(c_, (k0, w))
+    st.fact(z3.Implies(member, z3.And([z3.Select(src_has, w), is_str(w), sub(tv) == item_t] + [sub(c_) for c_ in side])))
 
 
 def b_type(I, st, args, kwargs, fr, k):
@@ -1211,8 +1331,13 @@ def b_str(I, st, args, kwargs, fr, k):
     t = x.t
     if z3.is_true(z3.simplify(is_str(t))):
         return k(st, x)
-    note(I, "str(x) of a non-string is an opaque string")
-    return k(st, Sym(z3.If(is_str(t), t, mk_str(z3.String(I.w.fresh("str"))))))
+    note(I, "str(x) of a non-string is an uninterpreted function of x (deterministic; str(0) == '0')")
+    f_ = z3.Function("str_of", V, z3.StringSort())
+    st.fact(f_(pyint(0)) == z3.StringVal("0"))
+    ck = concrete_key(I, st, x)
+    if isinstance(ck, int) and not isinstance(ck, bool):
+        return k(st, Sym(pystr(str(ck))))
+    return k(st, Sym(z3.If(is_str(t), t, mk_str(f_(z3.If(is_bool(t), t, z3.If(is_int(t), mk_int(get_i(t)), t)))))))
 
 
 def b_reversed(I, st, args, kwargs, fr, k):
@@ -1435,6 +1560,25 @@ def _opaque_protocol(what, cls, exc="builtins.TypeError"):
     return f
 
 
+def b_sorted(I, st, args, kwargs, fr, k):
+    items = concrete_items(I, st, args[0])
+    if items is not None and not kwargs:
+        keys = [concrete_key(I, st, x) for x in items]
+        if _NOKEY not in keys and len({type(x) for x in keys}) <= 1:
+            return k(st, new_list(I, st, [I.const_val(x) for x in sorted(keys)]))
+    raise Unsupported("sorted() of symbolic items")
+
+
+def b_str_title(I, st, args, kwargs, fr, k):
+    ck = concrete_key(I, st, args[0])
+    if isinstance(ck, str):
+        return k(st, Sym(pystr(ck.title())))
+    note(I, "str.title: opaque string")
+    return k(st, Sym(mk_str(z3.String(I.w.fresh("title")))))
+
+
+BUILTINS["builtins.str.title"] = b_str_title
+BUILTINS["sorted"] = b_sorted
 BUILTINS["iter"] = _opaque_protocol("iter", "builtins.object")
 CONSTRUCTORS = {
     "builtins.memoryview": _opaque_protocol("memoryview", "builtins.memoryview"),
